@@ -456,6 +456,19 @@ int main(int argc, char **argv)
         static gctx_t g;
         mx_result_t r;
         int ci, pp, v, ii;
+        if (!strncmp(replay, "K13;", 4))
+        {
+            k13case_t k3;
+            if (sscanf(replay, "K13;c=%d;a=%d", &k3.csuite, &k3.asuite) != 2)
+            {
+                return 2;
+            }
+            memset(&r, 0, sizeof(r));
+            snprintf(r.desc, sizeof(r.desc), "%s", replay);
+            k13_run_case(&k3, &r);
+            mx_replay_print(&r);
+            return 0;
+        }
         if (replay[0] == 'K')
         {
             kcase_t k;
